@@ -409,7 +409,7 @@ func (a *A) placeholderConfined(fam string, pos token.Pos) {
 							switch u := r.(type) {
 							case *ssa.Phi, *ssa.MakeInterface, *ssa.ChangeType, *ssa.Convert:
 							case *ssa.Call:
-								if u.Call.IsInvoke() && u.Call.Method.Name() == "Evaluate" {
+								if isPredicateEvalCall(&u.Call) {
 									continue
 								}
 								// a same-package helper that only hands its parameter to the predicate
@@ -427,7 +427,7 @@ func (a *A) placeholderConfined(fam string, pos token.Pos) {
 												switch hu := hr.(type) {
 												case *ssa.Phi, *ssa.MakeInterface, *ssa.ChangeType, *ssa.Convert, *ssa.DebugRef:
 												case *ssa.Call:
-													if !(hu.Call.IsInvoke() && hu.Call.Method.Name() == "Evaluate") {
+													if !isPredicateEvalCall(&hu.Call) {
 														onlyEval = false
 													}
 												default:
